@@ -52,6 +52,9 @@ ANCHORS = [
     ("src/easynetwork/lowlevel/api_async/backend/_asyncio/datagram/endpoint.py", "DatagramEndpoint.recvfrom"),
     ("src/easynetwork/lowlevel/api_async/backend/_asyncio/datagram/endpoint.py", "DatagramEndpoint.sendto"),
     ("src/easynetwork/lowlevel/api_async/backend/_asyncio/datagram/endpoint.py", "DatagramEndpointProtocol.datagram_received"),
+    ("src/easynetwork/lowlevel/api_async/backend/_asyncio/datagram/endpoint.py", "DatagramEndpointProtocol.error_received"),
+    ("src/easynetwork/lowlevel/api_async/backend/_asyncio/datagram/endpoint.py", "DatagramEndpoint.__check_exceptions"),
+    ("src/easynetwork/lowlevel/api_async/backend/_asyncio/datagram/socket.py", "AsyncioTransportDatagramSocketAdapter.recv"),
     ("src/easynetwork/clients/udp.py", "UDPNetworkClient.send_packet"),
     ("src/easynetwork/clients/udp.py", "UDPNetworkClient.recv_packet"),
     ("src/easynetwork/clients/async_udp.py", "AsyncUDPNetworkClient.send_packet"),
